@@ -104,7 +104,7 @@ CHECKS = {
             {"variant": "interp-dbg", "monitor": "c03", "shards": 16, "args": {"role": "write"}, "name": "c03-interpreter-stream"},
             {"variant": "jit-dbg", "monitor": "c03", "shards": 16, "args": {"role": "compare"}, "name": "c03-jit-warm-and-cold"},
         ] + valgrind_stream_pair("c03", 160),
-        "floors": {"quick": {"steps-compared-with-interpreter-build": 500_000, "cache-hits-after-a-bank-switch": 5_000, "jit:bank-register-writes": 20_000, "cache-entries-observed": 2_000},
+        "floors": {"quick": {"steps-compared-with-interpreter-build": 500_000, "cache-hits-after-a-bank-switch": 5_000, "jit:bank-register-writes": 20_000, "cache-entries-observed": 2_000, "code-cache-restarts-observed": 1},
                    "thorough": {"steps-compared-with-interpreter-build": 5_000_000}},
         "exhaustive": {"quick": False, "thorough": False},
         "assumptions": ["a bank switch inside a block that executes from the switched bank is not generated (block-granular translation vs per-instruction fetch; see DESIGN)"],
@@ -123,7 +123,7 @@ CHECKS = {
             {"variant": "jit-rel", "monitor": "c04", "shards": 16, "args": {"role": "compare"}, "name": "c04-jit-compare-release", "tiers": ("thorough",)},
         ] + valgrind_stream_pair("c04", 160),
         "floors": {"quick": {"steps-compared-with-interpreter-build": 600_000, "jit:dispatches:vblank": 100, "jit:dispatches:timer": 1_000, "jit:dma-transfers": 300,
-                             "jit:ram-resident-blocks": 5_000, "jit:suspended-steps": 100_000, "jit:serial-bytes": 500},
+                             "jit:ram-resident-blocks": 5_000, "jit:suspended-steps": 100_000, "jit:serial-bytes": 500, "code-cache-restarts-observed": 1},
                    "thorough": {"steps-compared-with-interpreter-build": 10_000_000}},
         "exhaustive": {"quick": False, "thorough": False},
         "assumptions": ["both builds include the observation hooks; the hooks-off binaries are compared end to end under C18"],
